@@ -186,6 +186,22 @@ Proof.
   eapply incl_tran; [apply HN; congruence | exact I].
 Qed.
 
+(* ------------------------------------------------------------------ the operations the property speaks about *)
+(* An attribute assignment / add_attribute that targets the object's own bookkeeping (`span`, `index`, a name starting with '_';
+   for models also `names`, `dtype`) is NOT one of them: it edits the one __dict__ the object keeps everything in.  The invariant
+   theorems carry `in_scope` as an explicit hypothesis; *_needs_scope_refuted (ContainerExamples.v) show that it is necessary. *)
+Definition in_scope (k : ckind) (o : op) : Prop :=
+  match o with
+  | SetAttr n _ _ | AddAttribute n _ => bookkeeping k n = false
+  | _ => True
+  end.
+
+Lemma bookkeeping_values k : bookkeeping k "values" = false.
+Proof. destruct k; reflexivity. Qed.
+
+Lemma bookkeeping_not_span k name : bookkeeping k name = false -> name <> "span".
+Proof. intros B ->. destruct k; discriminate B. Qed.
+
 Section Facts.
   Variable pycast : dtype -> pyval -> outcome pyval.
   Variable arrcast : dtype -> dtype -> pyval -> outcome pyval.
@@ -339,9 +355,9 @@ Section Facts.
     apply set_rows_arr_good.
   Qed.
 
-  Lemma obj_setattr_good name value s : good s (fst (obj_setattr name value s)).
+  Lemma obj_setattr_good name value s : bookkeeping (kind s) name = false -> good s (fst (obj_setattr name value s)).
   Proof.
-    unfold Container.obj_setattr.
+    intros B. unfold Container.obj_setattr. rewrite B.
     destruct (String.eqb name "strict").
     - destruct (truthy value); simpl; [|apply gs_refl]. apply gs_meta; reflexivity.
     - destruct (String.eqb name "values"); [apply values_setter_good|].
@@ -350,30 +366,32 @@ Section Facts.
       simpl. apply gs_meta; reflexivity.
   Qed.
 
-  Lemma add_attribute_good name value s : good s (fst (add_attribute name value s)).
+  Lemma add_attribute_good name value s : bookkeeping (kind s) name = false -> good s (fst (add_attribute name value s)).
   Proof.
-    unfold Container.add_attribute.
+    intros B. unfold Container.add_attribute.
     destruct (mem name (index s)); [apply gs_refl|].
     destruct (reg_mem name (registry s)); [apply gs_refl|].
-    pose proof (obj_setattr_good name value s) as G.
+    pose proof (obj_setattr_good name value s B) as G.
     destruct (obj_setattr name value s) as [s' [u|e]]; simpl in *; [|exact G].
     eapply gs_trans; [exact G|]. apply gs_meta; reflexivity.
   Qed.
 
-  Lemma setattr_good name value hint s : good s (fst (setattr name value hint s)).
+  Lemma setattr_good name value hint s :
+    bookkeeping (kind s) name = false \/ mem name (index s) = true -> good s (fst (setattr name value hint s)).
   Proof.
-    unfold Container.setattr.
+    intros B. unfold Container.setattr.
     match goal with |- context [if ?c then _ else _] => destruct c end.
     - destruct (alternatives hint (row_names s)) as [|a [|b r]]; apply gs_refl.
-    - destruct (negb (mem name (index s))).
-      + destruct (reg_mem name (registry s)); [apply obj_setattr_good | apply add_attribute_good].
+    - destruct (mem name (index s)) eqn:M; cbn [negb].
       + apply setattr_var_good.
+      + destruct B as [B|B]; [|discriminate B].
+        destruct (reg_mem name (registry s)); [apply obj_setattr_good | apply add_attribute_good]; exact B.
   Qed.
 
   Lemma setitem_good k value s : good s (fst (setitem k value s)).
   Proof.
     unfold Container.setitem. destruct k as [name|name l|name a b st| |]; try apply gs_refl.
-    - destruct (negb (mem name (index s))); [apply gs_refl | apply setattr_good].
+    - destruct (mem name (index s)) eqn:M; cbn [negb]; [apply setattr_good; right; exact M | apply gs_refl].
     - destruct (negb (mem name (index s))); [apply gs_refl|].
       destruct (locate (span s) l) as [p|e]; [|apply gs_refl].
       destruct (assoc name (vars s)) as [v|] eqn:A; [|apply gs_refl].
@@ -400,6 +418,7 @@ Section Facts.
   Proof.
     unfold Container.base_add_variable.
     destruct (mem name (index s)) eqn:M; [apply gs_refl|].
+    destruct (storage_taken name s); [apply gs_refl|].
     apply mem_false in M.
     match goal with |- context [match ?x with Ret _ => _ | Raise _ => _ end] => destruct x as [[[d0 m0] cells0]|e] end; [|apply gs_refl].
     match goal with |- context [match ?x with Ret _ => _ | Raise _ => _ end] => destruct x as [[d1 cells1]|e] end; [|apply gs_refl].
@@ -415,6 +434,7 @@ Section Facts.
   Proof.
     unfold Container.base_add_variable. intros H.
     destruct (mem name (index s)) eqn:M; [inversion H|].
+    destruct (storage_taken name s) eqn:ST; [inversion H|].
     match type of H with context [match ?x with Ret _ => _ | Raise _ => _ end] => destruct x as [[[d0 m0] cells0]|e] end; [|inversion H].
     match type of H with context [match ?x with Ret _ => _ | Raise _ => _ end] => destruct x as [[d1 cells1]|e] end; [|inversion H].
     destruct (negb (Nat.eqb m0 (n_of s))) eqn:C; [inversion H|].
@@ -427,6 +447,7 @@ Section Facts.
   Proof.
     unfold Container.base_add_variable. intros H.
     destruct (mem name (index s)) eqn:M; [inversion H; reflexivity|].
+    destruct (storage_taken name s); [inversion H; reflexivity|].
     match type of H with context [match ?x with Ret _ => _ | Raise _ => _ end] => destruct x as [[[d0 m0] cells0]|e0] end; [|inversion H; reflexivity].
     match type of H with context [match ?x with Ret _ => _ | Raise _ => _ end] => destruct x as [[d1 cells1]|e0] end; [|inversion H; reflexivity].
     destruct (negb (Nat.eqb m0 (n_of s))); inversion H; reflexivity.
@@ -447,47 +468,52 @@ Section Facts.
   Lemma read_frame q s : fst (read q s) = s.
   Proof. destruct q; reflexivity. Qed.
 
-  Lemma step_good o s : good s (fst (step o s)).
+  Lemma step_good o s : in_scope (kind s) o -> good s (fst (step o s)).
   Proof.
-    destruct o; simpl.
+    destruct o; simpl; intros SC.
     - apply add_variable_good.
-    - apply setattr_good.
+    - apply setattr_good. left. exact SC.
     - apply setitem_good.
     - apply replace_values_good.
-    - apply add_attribute_good.
+    - apply add_attribute_good. exact SC.
     - rewrite read_frame. apply gs_refl.
   Qed.
 
-  Lemma run_good ops s : good s (run ops s).
+  Lemma run_good ops : forall s, Forall (in_scope (kind s)) ops -> good s (run ops s).
   Proof.
-    revert s. induction ops as [|o ops IH]; intros s; simpl; [apply gs_refl|].
-    eapply gs_trans; [apply step_good | apply IH].
+    induction ops as [|o ops IH]; intros s F; simpl; [apply gs_refl|].
+    inversion F as [|? ? Fo Fr]; subst.
+    pose proof (step_good o s Fo) as G.
+    eapply gs_trans; [exact G | apply IH]. rewrite (proj2 (good_span _ _ G)). exact Fr.
   Qed.
 
   (* ================================================================ the invariant over arbitrary histories *)
-  Theorem step_preserves_inv o s : Inv s -> Inv (fst (step o s)).
-  Proof. intros H. eapply good_inv; [apply step_good | exact H]. Qed.
+  Theorem step_preserves_inv o s : in_scope (kind s) o -> Inv s -> Inv (fst (step o s)).
+  Proof. intros SC H. eapply good_inv; [apply step_good; exact SC | exact H]. Qed.
 
-  Theorem reachable_inv ops s : Inv s -> Inv (run ops s).
-  Proof. intros H. eapply good_inv; [apply run_good | exact H]. Qed.
+  Theorem reachable_inv ops s : Forall (in_scope (kind s)) ops -> Inv s -> Inv (run ops s).
+  Proof. intros SC H. eapply good_inv; [apply run_good; exact SC | exact H]. Qed.
 
-  Theorem reachable_inv_every_state ops s : Inv s -> Forall (fun r => Inv (fst r)) (run_trace ops s).
+  Theorem reachable_inv_every_state ops : forall s,
+    Forall (in_scope (kind s)) ops -> Inv s -> Forall (fun r => Inv (fst r)) (run_trace ops s).
   Proof.
-    revert s. induction ops as [|o ops IH]; intros s H; simpl; constructor.
-    - apply step_preserves_inv. exact H.
-    - apply IH. apply step_preserves_inv. exact H.
+    induction ops as [|o ops IH]; intros s F H; simpl; constructor; inversion F as [|? ? Fo Fr]; subst.
+    - apply step_preserves_inv; assumption.
+    - apply IH; [|apply step_preserves_inv; assumption].
+      rewrite (proj2 (good_span _ _ (step_good o s Fo))). exact Fr.
   Qed.
 
   (* a variable, once in the index, stays there with the dtype it has *)
   Theorem dtype_kept ops s x :
+    Forall (in_scope (kind s)) ops ->
     In x (index s) -> In x (index (run ops s)) /\ dtype_of (run ops s) x = dtype_of s x.
   Proof.
-    intros Hx. destruct (good_mono _ _ (run_good ops s)) as [I [D _]].
+    intros SC Hx. destruct (good_mono _ _ (run_good ops s SC)) as [I [D _]].
     split; [apply I; exact Hx | apply D; exact Hx].
   Qed.
 
-  Theorem span_kept ops s : span (run ops s) = span s /\ kind (run ops s) = kind s.
-  Proof. apply good_span. apply run_good. Qed.
+  Theorem span_kept ops s : Forall (in_scope (kind s)) ops -> span (run ops s) = span s /\ kind (run ops s) = kind s.
+  Proof. intros SC. apply good_span. apply run_good. exact SC. Qed.
 
   Lemma add_variable_ret name value dt s s' u :
     add_variable name value dt s = (s', Ret u) ->
@@ -506,11 +532,11 @@ Section Facts.
 
   (* "the dtype it was created with": after a successful add_variable, whatever follows keeps that dtype *)
   Theorem dtype_as_created name value dt s s1 u ops :
-    add_variable name value dt s = (s1, Ret u) ->
+    add_variable name value dt s = (s1, Ret u) -> Forall (in_scope (kind s1)) ops ->
     exists d, dtype_of s1 name = Some d /\ dtype_of (run ops s1) name = Some d /\ In name (index (run ops s1)).
   Proof.
-    intros H. apply add_variable_ret in H as [Hin [_ [d Hd]]].
-    destruct (dtype_kept ops s1 name Hin) as [I D].
+    intros H SC. apply add_variable_ret in H as [Hin [_ [d Hd]]].
+    destruct (dtype_kept ops s1 name SC Hin) as [I D].
     exists d. split; [exact Hd|]. split; [rewrite D; exact Hd | exact I].
   Qed.
 
@@ -587,6 +613,8 @@ Section Facts.
     name <> "values" -> obj_setattr name value s = (s', Raise e) -> s' = s.
   Proof.
     intros NV. unfold Container.obj_setattr. intros H.
+    destruct (bookkeeping (kind s) name).
+    { unfold Container.book_setattr in H. repeat dmh H; inversion H; reflexivity. }
     destruct (String.eqb name "strict").
     - destruct (truthy value); inversion H; reflexivity.
     - destruct (String.eqb name "values") eqn:E; [apply String.eqb_eq in E; contradiction|].
@@ -673,6 +701,91 @@ Section Facts.
     - inversion H.
   Qed.
 
+  (* ---- the precise version.  A raising single-variable operation changes something ONLY when it is an in-place copy
+     (label-slice assignment, or whole-series assignment of a non-sequence, i.e. an ndarray) whose element cast failed part-way;
+     and then only the cells of the addressed series differ: same dtype, same shape, every other series, the index, the
+     attributes untouched.  Everything else that "cannot fit" - wrong length into a slice, nesting too deep, step 0, ragged
+     nesting, a sequence into one cell, a whole-series LIST with a bad cell, unknown / duplicate names - leaves s' = s. *)
+  Definition only_data_of (name : string) (s s' : state) : Prop :=
+    exists v v', assoc name (vars s) = Some v /\ s' = set_vars s (assoc_set name v' (vars s)) /\
+                 vdtype v' = vdtype v /\ vshape v' = vshape v.
+
+  Lemma setattr_var_err2 name value s s' e :
+    setattr_var name value s = (s', Raise e) ->
+    s' = s \/ (is_sequence value = false /\ only_data_of name s s' /\ CastFail e).
+  Proof.
+    unfold Container.setattr_var. intros H.
+    destruct (assoc name (vars s)) as [v|] eqn:A; [|inversion H; left; reflexivity].
+    destruct (is_sequence value) eqn:SQ.
+    - destruct (as_array value) as [[sh cells]|e0]; [|inversion H; left; reflexivity].
+      destruct (cast_all (pycast (vdtype v)) cells) as [cells'|e0]; [|inversion H; left; reflexivity].
+      destruct (negb (Nat.eqb (length sh) 1) || negb (Nat.eqb (hd 0 sh) (n_of s)))%bool; inversion H; left; reflexivity.
+    - destruct (vshape v) as [|m [|m' r]]; try (inversion H; left; reflexivity).
+      destruct (assign_inplace v (seq 0 m) value) as [v' eo] eqn:AI.
+      destruct eo as [ex|]; inversion H; subst.
+      destruct (assign_inplace_meta _ _ _ _ _ AI) as [D S'].
+      apply assign_inplace_err in AI as [->|C].
+      + left. rewrite (assoc_set_same _ _ _ A). apply set_vars_same.
+      + right. split; [reflexivity|]. split; [|exact C]. exists v, v'. repeat split; assumption.
+  Qed.
+
+  Theorem sequence_assignment_atomic name value s s' e :
+    is_sequence value = true -> setattr_var name value s = (s', Raise e) -> s' = s.
+  Proof. intros SQ H. destruct (setattr_var_err2 _ _ _ _ _ H) as [E|[C _]]; [exact E|congruence]. Qed.
+
+  Theorem label_assignment_atomic name l value s s' e :
+    setitem (KLabel name l) value s = (s', Raise e) -> s' = s.
+  Proof.
+    unfold Container.setitem. intros H.
+    destruct (negb (mem name (index s))); [inversion H; reflexivity|].
+    destruct (locate (span s) l) as [p|e0]; [|inversion H; reflexivity].
+    destruct (assoc name (vars s)) as [v|] eqn:A; [|inversion H; reflexivity].
+    destruct (assign_item v p value) as [v' eo] eqn:AI.
+    destruct eo as [ex|]; inversion H; subst.
+    apply assign_item_err in AI. subst v'. rewrite (assoc_set_same _ _ _ A). apply set_vars_same.
+  Qed.
+
+  Theorem failed_single_assignment_precise o s s' e :
+    single o -> step o s = (s', Raise e) ->
+    s' = s \/
+    exists name, only_data_of name s s' /\ CastFail e /\
+      ((exists a b st v, o = SetItem (KSlice name a b st) v) \/
+       (exists v h, o = SetAttr name v h /\ is_sequence v = false) \/
+       (exists v, o = SetItem (KName name) v /\ is_sequence v = false)).
+  Proof.
+    destruct o as [name v dt|name v hint|k v|kvs|name v|q]; simpl; intros S H.
+    - left. eapply add_variable_err; eassumption.
+    - unfold Container.setattr in H.
+      match type of H with context [if ?c then _ else _] => destruct c end.
+      + destruct (alternatives hint (row_names s)) as [|a [|b r]]; inversion H; left; reflexivity.
+      + destruct (negb (mem name (index s))).
+        * left. destruct (reg_mem name (registry s)); [eapply obj_setattr_err; eassumption | eapply add_attribute_err; eassumption].
+        * destruct (setattr_var_err2 _ _ _ _ _ H) as [E|[SQ [OD C]]]; [left; exact E|].
+          right. exists name. split; [exact OD|]. split; [exact C|]. right. left. exists v, hint. split; [reflexivity|exact SQ].
+    - destruct k as [name|name l|name a b st| |]; try (inversion H; left; reflexivity).
+      + unfold Container.setitem in H. destruct (negb (mem name (index s))) eqn:M; [inversion H; left; reflexivity|].
+        apply negb_false_iff in M. rewrite (setattr_on_var _ _ _ _ M) in H.
+        destruct (setattr_var_err2 _ _ _ _ _ H) as [E|[SQ [OD C]]]; [left; exact E|].
+        right. exists name. split; [exact OD|]. split; [exact C|]. right. right. exists v. split; [reflexivity|exact SQ].
+      + left. eapply label_assignment_atomic. exact H.
+      + unfold Container.setitem in H.
+        destruct (negb (mem name (index s))); [inversion H; left; reflexivity|].
+        destruct (resolve_slice (span s) a b st) as [[[sl el] stp]|e0]; [|inversion H; left; reflexivity].
+        destruct (assoc name (vars s)) as [x|] eqn:A; [|inversion H; left; reflexivity].
+        destruct (vshape x) as [|m [|m' r]] eqn:SH; try (inversion H; left; reflexivity).
+        destruct (slice_positions m sl el stp) as [ps|]; [|inversion H; left; reflexivity].
+        destruct (assign_inplace x ps v) as [x' eo] eqn:AI.
+        destruct eo as [ex|]; inversion H; subst.
+        destruct (assign_inplace_meta _ _ _ _ _ AI) as [D S'].
+        apply assign_inplace_err in AI as [->|C].
+        * left. rewrite (assoc_set_same _ _ _ A). apply set_vars_same.
+        * right. exists name. split; [exists x, x'; repeat split; assumption|]. split; [exact C|].
+          left. exists a, b, st, v. reflexivity.
+    - contradiction.
+    - left. eapply add_attribute_err; eassumption.
+    - inversion H.
+  Qed.
+
   (* add_variable, and every rejection that is not NumPy's, is atomic for ALL operations that address one name *)
   Theorem add_variable_atomic name value dt s s' e :
     add_variable name value dt s = (s', Raise e) -> s' = s.
@@ -684,6 +797,19 @@ Section Facts.
     intros M. unfold Container.add_variable, Container.base_add_variable. rewrite M.
     destruct (kind s); reflexivity.
   Qed.
+
+  (* fix d82b358: a name whose storage key '_' + name is taken already ('attributes', 'strict', a linker's 'LAGS' / 'LEADS', or any
+     name shadowing an existing '_'-prefixed attribute) is refused, nothing changes *)
+  Theorem reserved_name_rejected name value dt s :
+    storage_taken name s = true -> exists e, add_variable name value dt s = (s, Raise e) /\ e = DuplicateNameError.
+  Proof.
+    intros T. exists DuplicateNameError. split; [|reflexivity].
+    unfold Container.add_variable, Container.base_add_variable. rewrite T.
+    destruct (kind s); destruct (mem name (index s)); reflexivity.
+  Qed.
+
+  Theorem attributes_and_strict_are_reserved s : storage_taken "attributes" s = true /\ storage_taken "strict" s = true.
+  Proof. split; reflexivity. Qed.
 
   Theorem duplicate_attribute_rejected name value s :
     (mem name (index s) || reg_mem name (registry s))%bool = true ->
@@ -835,6 +961,8 @@ Section Facts.
                             (set_strict (fst (base_add_variable name value dt0 s)) b, snd (base_add_variable name value dt0 s))).
     { intros dt0. unfold Container.base_add_variable, n_of. simpl.
       destruct (mem name (index s)); [reflexivity|].
+      change (storage_taken name (set_strict s b)) with (storage_taken name s).
+      destruct (storage_taken name s); [reflexivity|].
       match goal with |- context [match ?x with Ret _ => _ | Raise _ => _ end] => destruct x as [[[d0 m0] cells0]|e] end; [|reflexivity].
       match goal with |- context [match ?x with Ret _ => _ | Raise _ => _ end] => destruct x as [[d1 cells1]|e] end; [|reflexivity].
       destruct (negb (Nat.eqb m0 (length (span s)))); reflexivity. }
@@ -855,10 +983,10 @@ Section Facts.
   Proof.
     intros M H. unfold Container.setattr. rewrite M.
     destruct (reg_mem "values" (registry s)) eqn:R.
-    - rewrite !andb_false_r. cbn [negb]. unfold Container.obj_setattr. cbn [String.eqb Ascii.eqb Bool.eqb]. auto.
+    - rewrite !andb_false_r. cbn [negb]. unfold Container.obj_setattr. rewrite bookkeeping_values. cbn [String.eqb Ascii.eqb Bool.eqb]. auto.
     - destruct H as [H|H]; [|discriminate]. rewrite H. rewrite andb_false_r. cbn [negb andb].
       unfold Container.add_attribute. rewrite M, R.
-      unfold Container.obj_setattr. cbn [String.eqb Ascii.eqb Bool.eqb].
+      unfold Container.obj_setattr. rewrite bookkeeping_values. cbn [String.eqb Ascii.eqb Bool.eqb].
       destruct (values_setter value s) as [s' [u|e]]; simpl; auto. destruct u. auto.
   Qed.
 
@@ -899,6 +1027,34 @@ Section Facts.
   Lemma invV_set_names s nm : InvV s -> InvV (set_names s nm).
   Proof. intros H. exact H. Qed.
 
+  Lemma good_at (f : state -> res) s s' r : good s (fst (f s)) -> f s = (s', r) -> good s s'.
+  Proof. intros G E. rewrite E in G. exact G. Qed.
+
+  (* the constructor's own registrations of `dtype` and `names` (bookkeeping entries of a model) touch no series *)
+  Lemma add_attribute_dtype_meta value s :
+    let s' := fst (add_attribute "dtype" value s) in
+    span s' = span s /\ index s' = index s /\ vars s' = vars s /\ kind s' = kind s /\ names s' = names s.
+  Proof.
+    unfold Container.add_attribute.
+    destruct (mem "dtype" (index s)); [simpl; auto 6|].
+    destruct (reg_mem "dtype" (registry s)); [simpl; auto 6|].
+    unfold Container.obj_setattr, Container.book_setattr.
+    destruct (kind s) eqn:K; cbn [bookkeeping String.eqb Ascii.eqb Bool.eqb underscored orb]; rewrite ?K;
+      try (destruct (as_dreq value)); simpl; auto 6.
+  Qed.
+
+  Lemma add_attribute_names_meta value s :
+    let s' := fst (add_attribute "names" value s) in
+    span s' = span s /\ index s' = index s /\ vars s' = vars s /\ kind s' = kind s.
+  Proof.
+    unfold Container.add_attribute.
+    destruct (mem "names" (index s)); [simpl; auto|].
+    destruct (reg_mem "names" (registry s)); [simpl; auto|].
+    unfold Container.obj_setattr, Container.book_setattr.
+    destruct (kind s) eqn:K; cbn [bookkeeping String.eqb Ascii.eqb Bool.eqb underscored orb]; rewrite ?K;
+      try (destruct (as_str_list value)); simpl; auto.
+  Qed.
+
   (* a successfully constructed BaseModel / BaseLinker satisfies the invariant *)
   Theorem inv_init_model k sp st d default NAMES ivs s u :
     k <> CVC ->
@@ -918,24 +1074,32 @@ Section Facts.
     apply bind_ret in H as (s9 & u9 & H9 & H).
     set (s0 := mkState sp [] [] core_registry [] st k [] None) in *.
     assert (I0 : InvV s0) by (repeat split; simpl; [constructor | intros x [] | intros x v E; discriminate]).
-    pose proof (good_of (add_attribute "dtype" (dreq_operand d)) _ _ _ (add_attribute_good _ _) H1) as G1.
+    assert (G1 : good s0 s1).
+    { pose proof (add_attribute_dtype_meta (dreq_operand d) s0) as M. rewrite H1 in M. simpl fst in M.
+      destruct M as (M1 & M2 & M3 & M4 & M5). apply gs_meta; assumption. }
     set (s1' := mkState (span s1) (index s1) (vars s1) (registry s1) (adict s1) (strict s1) (kind s1) (names s1) (Some d)) in *.
     assert (G1' : good s1 s1') by (apply gs_meta; reflexivity).
     pose proof (good_of (base_add_variable "status" (OScalar (PStr "-")) None) _ _ _ (base_add_variable_good _ _ _) H2) as G2.
     pose proof (good_of (base_add_variable "iterations" (OScalar (PInt (-1))) None) _ _ _ (base_add_variable_good _ _ _) H3) as G3.
-    pose proof (good_of (add_attribute "names" (OSeq KList (map (fun x => OScalar (PStr x)) NAMES))) _ _ _ (add_attribute_good _ _) H4) as G4.
     assert (I4 : InvV (set_names s4 NAMES)).
-    { apply invV_set_names. eapply good_invV; [|exact I0].
-      eapply gs_trans; [exact G1|]. eapply gs_trans; [exact G1'|]. eapply gs_trans; [exact G2|]. eapply gs_trans; [exact G3|exact G4]. }
+    { apply invV_set_names.
+      assert (I3 : InvV s3).
+      { eapply good_invV; [|exact I0]. eapply gs_trans; [exact G1|]. eapply gs_trans; [exact G1'|]. eapply gs_trans; [exact G2|exact G3]. }
+      pose proof (add_attribute_names_meta (OSeq KList (map (fun x => OScalar (PStr x)) NAMES)) s3) as M. rewrite H4 in M. simpl fst in M.
+      destruct M as (M1 & M2 & M3 & M4). unfold InvV, n_of. rewrite M1, M2, M3. exact I3. }
     pose proof (good_of (init_vars NAMES ivs default d) _ _ _ (init_vars_good _ _ _ _) H5) as G5.
-    pose proof (good_of (add_attribute "lags" (OScalar (PInt 0))) _ _ _ (add_attribute_good _ _) H6) as G6.
-    pose proof (good_of (add_attribute "leads" (OScalar (PInt 0))) _ _ _ (add_attribute_good _ _) H7) as G7.
-    pose proof (good_of (add_attribute "endogenous" (OSeq KList [])) _ _ _ (add_attribute_good _ _) H8) as G8.
-    pose proof (good_of (add_attribute "check" (OSeq KList [])) _ _ _ (add_attribute_good _ _) H9) as G9.
+    assert (G6 : good s5 s6).
+    { eapply (good_at (add_attribute "lags" (OScalar (PInt 0)))); [|exact H6]. apply add_attribute_good. destruct (kind s5); reflexivity. }
+    assert (G7 : good s6 s7).
+    { eapply (good_at (add_attribute "leads" (OScalar (PInt 0)))); [|exact H7]. apply add_attribute_good. destruct (kind s6); reflexivity. }
+    assert (G8 : good s7 s8).
+    { eapply (good_at (add_attribute "endogenous" (OSeq KList []))); [|exact H8]. apply add_attribute_good. destruct (kind s7); reflexivity. }
+    assert (G9 : good s8 s9).
+    { eapply (good_at (add_attribute "check" (OSeq KList []))); [|exact H9]. apply add_attribute_good. destruct (kind s8); reflexivity. }
     assert (G59 : good s5 s9) by (eapply gs_trans; [exact G6|]; eapply gs_trans; [exact G7|]; eapply gs_trans; [exact G8|exact G9]).
     assert (Gfin : good s9 s).
     { destruct k; [contradiction| |].
-      - exact (good_of (add_attribute "engine" (OScalar (PStr "python"))) _ _ _ (add_attribute_good _ _) H).
+      - eapply (good_at (add_attribute "engine" (OScalar (PStr "python")))); [|exact H]. apply add_attribute_good. destruct (kind s9); reflexivity.
       - inversion H; subst. apply gs_refl. }
     assert (Gall : good (set_names s4 NAMES) s) by (eapply gs_trans; [exact G5|]; eapply gs_trans; [exact G59|exact Gfin]).
     split; [eapply good_invV; eassumption|].
@@ -1022,8 +1186,9 @@ Section Order.
   Notation add_variable := (add_variable pycast arrcast infer astype_dt).
 
   Theorem declaration_order_kept ops s :
+    Forall (in_scope (kind s)) ops ->
     (exists l, index (run ops s) = index s ++ l) /\ (exists l, names (run ops s) = names s ++ l).
-  Proof. apply good_prefix. apply run_good. Qed.
+  Proof. intros SC. apply good_prefix. apply run_good. exact SC. Qed.
 
   (* an accepted add_variable puts the new name LAST (in `index`, and in `names` for models) *)
   Theorem add_variable_appends name value dt s s' u :
@@ -1282,9 +1447,10 @@ Section NoOther.
     apply set_rows_arr_no_other. exact IV.
   Qed.
 
-  Lemma obj_setattr_no_other name value s : Inv s -> snd (obj_setattr name value s) <> Raise OtherError.
+  Lemma obj_setattr_no_other name value s :
+    bookkeeping (kind s) name = false -> Inv s -> snd (obj_setattr name value s) <> Raise OtherError.
   Proof.
-    intros I. unfold Container.obj_setattr.
+    intros B I. unfold Container.obj_setattr. rewrite B.
     destruct (String.eqb name "strict").
     - pose proof (truthy_no_other value) as T. destruct (truthy value); simpl; [discriminate|]. intros C. inversion C; subst. apply T. reflexivity.
     - destruct (String.eqb name "values"); [apply values_setter_no_other; exact I|].
@@ -1292,23 +1458,26 @@ Section NoOther.
       match goal with |- context [if ?c then _ else _] => destruct c end; simpl; discriminate.
   Qed.
 
-  Lemma add_attribute_no_other name value s : Inv s -> snd (add_attribute name value s) <> Raise OtherError.
+  Lemma add_attribute_no_other name value s :
+    bookkeeping (kind s) name = false -> Inv s -> snd (add_attribute name value s) <> Raise OtherError.
   Proof.
-    intros I. unfold Container.add_attribute.
+    intros B I. unfold Container.add_attribute.
     destruct (mem name (index s)); [simpl; discriminate|].
     destruct (reg_mem name (registry s)); [simpl; discriminate|].
-    pose proof (obj_setattr_no_other name value s I) as O.
+    pose proof (obj_setattr_no_other name value s B I) as O.
     destruct (obj_setattr name value s) as [s' [u|e]]; simpl in *; [discriminate|exact O].
   Qed.
 
-  Lemma setattr_no_other name value hint s : Inv s -> snd (setattr name value hint s) <> Raise OtherError.
+  Lemma setattr_no_other name value hint s :
+    bookkeeping (kind s) name = false \/ mem name (index s) = true -> Inv s -> snd (setattr name value hint s) <> Raise OtherError.
   Proof.
-    intros I. unfold Container.setattr.
+    intros B I. unfold Container.setattr.
     match goal with |- context [if ?c then _ else _] => destruct c end.
     - destruct (alternatives hint (row_names s)) as [|a [|b r]]; simpl; discriminate.
-    - destruct (negb (mem name (index s))).
-      + destruct (reg_mem name (registry s)); [apply obj_setattr_no_other | apply add_attribute_no_other]; exact I.
+    - destruct (mem name (index s)) eqn:M; cbn [negb].
       + apply setattr_var_no_other. exact (proj1 I).
+      + destruct B as [B|B]; [|discriminate B].
+        destruct (reg_mem name (registry s)); [apply obj_setattr_no_other | apply add_attribute_no_other]; assumption.
   Qed.
 
   Lemma replace_values_no_other kvs : forall s, Inv s -> snd (replace_values kvs s) <> Raise OtherError.
@@ -1317,8 +1486,9 @@ Section NoOther.
     change (replace_values ((k, v) :: kvs) s) with
       (match setitem (KName k) v s with (s1, Ret _) => replace_values kvs s1 | (s1, Raise e1) => (s1, Raise e1) end).
     assert (S1 : snd (setitem (KName k) v s) <> Raise OtherError).
-    { unfold Container.setitem. destruct (negb (mem k (index s))); [simpl; discriminate|]. apply setattr_no_other. exact I. }
-    pose proof (step_preserves_inv pycast arrcast infer astype_dt itemseq_exn (SetItem (KName k) v) s I) as S2.
+    { unfold Container.setitem. destruct (mem k (index s)) eqn:Mk; cbn [negb]; [|simpl; discriminate].
+      apply setattr_no_other; [right; exact Mk|exact I]. }
+    pose proof (step_preserves_inv pycast arrcast infer astype_dt itemseq_exn (SetItem (KName k) v) s Logic.I I) as S2.
     change (Inv (fst (setitem (KName k) v s))) in S2.
     destruct (setitem (KName k) v s) as [s' [u|e]]; simpl in *; [apply IH; exact S2|exact S1].
   Qed.
@@ -1327,6 +1497,7 @@ Section NoOther.
   Proof.
     unfold Container.base_add_variable.
     destruct (mem name (index s)); [simpl; discriminate|].
+    destruct (storage_taken name s); [simpl; discriminate|].
     pose proof (natural_no_other value) as NN.
     assert (FIRST : (if is_sequence value
                      then match natural value with
@@ -1361,14 +1532,14 @@ Section NoOther.
   Qed.
 
   (* no operation leaves the model *)
-  Theorem no_other_error o s : Inv s -> snd (step o s) <> Raise OtherError.
+  Theorem no_other_error o s : in_scope (kind s) o -> Inv s -> snd (step o s) <> Raise OtherError.
   Proof.
-    intros I H. destruct o as [name v dt|name v hint|k v|kvs|name v|q]; simpl in H.
+    intros SC I H. destruct o as [name v dt|name v hint|k v|kvs|name v|q]; simpl in H, SC.
     - exact (add_variable_no_other name v dt s H).
-    - exact (setattr_no_other name v hint s I H).
+    - exact (setattr_no_other name v hint s (or_introl SC) I H).
     - destruct k as [name|name l|name a b st| |]; try (simpl in H; discriminate H).
-      + unfold Container.setitem in H. destruct (negb (mem name (index s))); [discriminate H|].
-        exact (setattr_no_other name v None s I H).
+      + unfold Container.setitem in H. destruct (mem name (index s)) eqn:Mn; cbn [negb] in H; [|discriminate H].
+        exact (setattr_no_other name v None s (or_intror Mn) I H).
       + unfold Container.setitem in H. destruct (negb (mem name (index s))); [discriminate H|].
         destruct (locate (span s) l) as [p|e] eqn:L; [|simpl in H; inversion H; subst; apply locate_err in L; discriminate L].
         destruct (assoc name (vars s)) as [x|] eqn:A; [|discriminate H].
@@ -1385,7 +1556,7 @@ Section NoOther.
         destruct (Container.assign_inplace pycast arrcast x ps v) as [x' [e|]]; simpl in *; [|discriminate H].
         inversion H; subst. apply AI. reflexivity.
     - exact (replace_values_no_other kvs s I H).
-    - exact (add_attribute_no_other name v s I H).
+    - exact (add_attribute_no_other name v s SC I H).
     - discriminate H.
   Qed.
 End NoOther.
@@ -1640,38 +1811,43 @@ Section DataLength.
     apply set_rows_arr_invD. exact D.
   Qed.
 
-  Lemma obj_setattr_invD name value s : wf_operand value -> InvD s -> InvD (fst (obj_setattr name value s)).
+  Lemma obj_setattr_invD name value s : name <> "span" -> wf_operand value -> InvD s -> InvD (fst (obj_setattr name value s)).
   Proof.
-    intros W D. unfold Container.obj_setattr.
+    intros NS W D. unfold Container.obj_setattr.
+    destruct (bookkeeping (kind s) name).
+    { unfold Container.book_setattr. destruct (String.eqb name "span") eqn:E; [apply String.eqb_eq in E; contradiction|].
+      repeat dm; exact D. }
     destruct (String.eqb name "strict"); [destruct (truthy value); exact D|].
     destruct (String.eqb name "values"); [apply values_setter_invD; assumption|].
     destruct (String.eqb name "size" || String.eqb name "nbytes")%bool; [exact D|].
     match goal with |- context [if ?c then _ else _] => destruct c end; exact D.
   Qed.
 
-  Lemma add_attribute_invD name value s : wf_operand value -> InvD s -> InvD (fst (add_attribute name value s)).
+  Lemma add_attribute_invD name value s : name <> "span" -> wf_operand value -> InvD s -> InvD (fst (add_attribute name value s)).
   Proof.
-    intros W D. unfold Container.add_attribute.
+    intros NS W D. unfold Container.add_attribute.
     destruct (mem name (index s)); [exact D|].
     destruct (reg_mem name (registry s)); [exact D|].
-    pose proof (obj_setattr_invD name value s W D) as O.
+    pose proof (obj_setattr_invD name value s NS W D) as O.
     destruct (obj_setattr name value s) as [s' [u|e]]; simpl in *; exact O.
   Qed.
 
-  Lemma setattr_invD name value hint s : wf_operand value -> InvD s -> InvD (fst (setattr name value hint s)).
+  Lemma setattr_invD name value hint s :
+    name <> "span" \/ mem name (index s) = true -> wf_operand value -> InvD s -> InvD (fst (setattr name value hint s)).
   Proof.
-    intros W D. unfold Container.setattr.
+    intros NS W D. unfold Container.setattr.
     match goal with |- context [if ?c then _ else _] => destruct c end.
     - destruct (alternatives hint (row_names s)) as [|a [|b r]]; exact D.
-    - destruct (negb (mem name (index s))).
-      + destruct (reg_mem name (registry s)); [apply obj_setattr_invD | apply add_attribute_invD]; assumption.
+    - destruct (mem name (index s)) eqn:M; cbn [negb].
       + apply setattr_var_invD; assumption.
+      + destruct NS as [NS|NS]; [|discriminate NS].
+        destruct (reg_mem name (registry s)); [apply obj_setattr_invD | apply add_attribute_invD]; assumption.
   Qed.
 
   Lemma setitem_invD k value s : wf_operand value -> InvD s -> InvD (fst (setitem k value s)).
   Proof.
     intros W D. unfold Container.setitem. destruct k as [name|name l|name a b st| |]; try exact D.
-    - destruct (negb (mem name (index s))); [exact D | apply setattr_invD; assumption].
+    - destruct (mem name (index s)) eqn:Mn; cbn [negb]; [apply setattr_invD; [right; exact Mn|assumption|assumption] | exact D].
     - destruct (negb (mem name (index s))); [exact D|].
       destruct (locate (span s) l) as [p|e]; [|exact D].
       destruct (assoc name (vars s)) as [v|] eqn:A; [|exact D].
@@ -1701,6 +1877,7 @@ Section DataLength.
   Proof.
     intros W D. unfold Container.base_add_variable.
     destruct (mem name (index s)); [exact D|].
+    destruct (storage_taken name s); [exact D|].
     assert (FIRST : forall d0 m0 cells0,
       (if is_sequence value
        then match natural value with
@@ -1742,22 +1919,24 @@ Section DataLength.
        destruct (base_add_variable name value (match dt with None => dflt s | Some _ => dt end) s) as [s' [u|e]]; simpl in *; exact B).
   Qed.
 
-  Theorem step_preserves_invD o s : wf_key_op o -> InvD s -> InvD (fst (step o s)).
+  Theorem step_preserves_invD o s : in_scope (kind s) o -> wf_key_op o -> InvD s -> InvD (fst (step o s)).
   Proof.
-    destruct o as [name v dt|name v hint|k v|kvs|name v|q]; simpl; intros W D.
+    destruct o as [name v dt|name v hint|k v|kvs|name v|q]; simpl; intros SC W D.
     - apply add_variable_invD; assumption.
-    - apply setattr_invD; assumption.
+    - apply setattr_invD; [left; eapply bookkeeping_not_span; exact SC|assumption|assumption].
     - apply setitem_invD; assumption.
     - apply replace_values_invD; assumption.
-    - apply add_attribute_invD; assumption.
+    - apply add_attribute_invD; [eapply bookkeeping_not_span; exact SC|assumption|assumption].
     - rewrite read_frame. exact D.
   Qed.
 
-  (* through ANY history of operations with consistent ndarray operands: every series holds exactly one cell per period *)
-  Theorem reachable_invD ops : Forall wf_key_op ops -> forall s, InvD s -> InvD (run ops s).
+  (* through ANY history of in-scope operations with consistent ndarray operands: every series holds exactly one cell per period *)
+  Theorem reachable_invD ops : Forall wf_key_op ops -> forall s, Forall (in_scope (kind s)) ops -> InvD s -> InvD (run ops s).
   Proof.
-    induction 1 as [|o ops Wo Wr IH]; intros s D; simpl; [exact D|].
-    apply IH. apply step_preserves_invD; assumption.
+    induction 1 as [|o ops Wo Wr IH]; intros s F D; simpl; [exact D|].
+    inversion F as [|? ? Fo Fr]; subst.
+    apply IH; [|apply step_preserves_invD; assumption].
+    rewrite (proj2 (good_span _ _ (step_good pycast arrcast infer astype_dt itemseq_exn o s Fo))). exact Fr.
   Qed.
 End DataLength.
 
@@ -1808,18 +1987,18 @@ Section DataLengthInit.
     InvD (fst (init_model k sp st d default NAMES ivs)).
   Proof.
     intros Wd Wi. unfold Container.init_model.
-    apply bind_invD; [apply add_attribute_invD; [exact I|intros x v E; discriminate E]|]. intros s1 D1.
+    apply bind_invD; [apply add_attribute_invD; [discriminate|exact I|intros x v E; discriminate E]|]. intros s1 D1.
     apply bind_invD; [apply base_add_variable_invD; [exact I|exact D1]|]. intros s2 D2.
     apply bind_invD; [apply base_add_variable_invD; [exact I|exact D2]|]. intros s3 D3.
     destruct (negb (dup_free NAMES)); [exact D3|].
     match goal with |- context [if ?c then _ else _] => destruct c end; [exact D3|].
-    apply bind_invD; [apply add_attribute_invD; [apply wf_scalars|exact D3]|]. intros s4 D4.
+    apply bind_invD; [apply add_attribute_invD; [discriminate|apply wf_scalars|exact D3]|]. intros s4 D4.
     apply bind_invD; [apply init_vars_invD; [exact Wd|exact Wi|exact D4]|]. intros s5 D5.
-    apply bind_invD; [apply add_attribute_invD; [exact I|exact D5]|]. intros s6 D6.
-    apply bind_invD; [apply add_attribute_invD; [exact I|exact D6]|]. intros s7 D7.
-    apply bind_invD; [apply add_attribute_invD; [exact I|exact D7]|]. intros s8 D8.
-    apply bind_invD; [apply add_attribute_invD; [exact I|exact D8]|]. intros s9 D9.
-    destruct k; [exact D9|apply add_attribute_invD; [exact I|exact D9]|exact D9].
+    apply bind_invD; [apply add_attribute_invD; [discriminate|exact I|exact D5]|]. intros s6 D6.
+    apply bind_invD; [apply add_attribute_invD; [discriminate|exact I|exact D6]|]. intros s7 D7.
+    apply bind_invD; [apply add_attribute_invD; [discriminate|exact I|exact D7]|]. intros s8 D8.
+    apply bind_invD; [apply add_attribute_invD; [discriminate|exact I|exact D8]|]. intros s9 D9.
+    destruct k; [exact D9|apply add_attribute_invD; [discriminate|exact I|exact D9]|exact D9].
   Qed.
 End DataLengthInit.
 
